@@ -88,6 +88,13 @@ pub fn c02a<const N: usize>(sh: Shape, k: usize, dir: PatchDirection) {
             assert!(line == r.chosen, "not the nearest admissible match");
             assert!(offset == line - stated, "offset is not line - stated line");
             assert!(fuzz == k);
+            // what the splice loop adds up to shift later hunks: lines of the side that goes in minus lines of the side that is
+            // matched, for the direction the hunk is applied in (sh.a / sh.r added / removed lines; context cancels out)
+            let want_diff = match dir {
+                PatchDirection::Forward => sh.a as isize - sh.r as isize,
+                PatchDirection::Revert => sh.r as isize - sh.a as isize,
+            };
+            assert!(line_count_diff == want_diff, "reported line-count difference has the wrong value or sign for this direction");
             // never over lines an earlier hunk froze: first changed line behind the previous hunk's changed
             // lines, own context not over them either
             assert!(line + p1 as isize > frozen);
